@@ -54,6 +54,8 @@ ProofVerdict(e) ==
       x == e.extract
       leaves == [k \in 1..Cardinality(S) |-> e.tree[1][SortedSeq(S)[k] + 1]]
   IN First(<<
+       \* TxInSet(hash of transaction i, chosen set) <=> i was chosen
+       IF "inset" \in DOMAIN e /\ \E i \in 1..Len(e.inset) : e.inset[i] # ((i - 1) \in S) THEN V("tx-in-set", S, e.inset) ELSE OK,
        MsgIs(e, e.txnset, S),
        \* filter-induced subsets: no chosen transaction is missed; both builders agree exactly
        IF ~(S \subseteq Sf) THEN V("filter-proof-misses-transaction", S \ Sf, "missing") ELSE OK,
